@@ -843,7 +843,8 @@ func (c *Ctx) isTrailingProbe(fd *ast.FuncDecl, call *ast.CallExpr) bool {
 func ruleNoEOFTolerance(c *Ctx, r *Report, rule string) {
 	r.rule(rule, 2, "io.EOF is compared against only in Load's final probe and in the helper that turns a mid-entity EOF into ErrUnexpectedEOF; Load returns nil only after that probe; section errors are returned, wrapped")
 	sites := map[string]int{}
-	for obj, fd := range c.funcDecls {
+	for _, it := range c.sortedDecls() {
+		obj, fd := it.obj, it.fd
 		if obj.Pkg() == nil || obj.Pkg().Path() != bclPath || fd.Body == nil {
 			continue
 		}
